@@ -8,7 +8,7 @@ import os
 import re
 import z3
 
-from mirsym import (Unsupported, PathAbort, UNIT, Unit, Agg, EnumV, BoxV, BoxPtr, ValRef, PlaceRef,
+from mirsym import (over_const_leaves, Unsupported, PathAbort, UNIT, Unit, Agg, EnumV, BoxV, BoxPtr, ValRef, PlaceRef,
                     SliceRef, MutSliceRef, Opaque, FnItem, Model, ClosureAdapter, DowncastView, bv, zand, zor, znot,
                     zite, ite_val, is_z3, zsimp, int_info, select, INT_W, strip_paths, split_top, generic_args)
 
@@ -511,6 +511,15 @@ def m_minmax(ex, m, argv, guard, st, callee):
     if ii is None:
         raise Unsupported("cmp::%s on %s" % (which, ty))
     a, b = argv
+    if not ii[1]:
+        # one side a constant, the other an if-then-else tree of constants: a tree of constants again
+        for x, y in ((a, b), (b, a)):
+            if is_z3(y) and z3.is_bv_value(zsimp(y)):
+                yc = zsimp(y).as_long()
+                pick = (lambda c: bv(max(c.as_long(), yc), c.size())) if which == 'max' else (lambda c: bv(min(c.as_long(), yc), c.size()))
+                d = over_const_leaves(x, pick)
+                if d is not None:
+                    return guard, zsimp(d)
     lt = (a < b) if ii[1] else z3.ULT(a, b)
     if which == 'max':
         return guard, zite(lt, b, a)
@@ -1292,6 +1301,16 @@ def m_next_power_of_two(ex, m, argv, guard, st, callee):
     """uN::next_power_of_two: the smallest power of two >= x (1 for 0); a result that does not fit panics in debug builds."""
     x = argv[0]
     w = x.size()
+
+    def npot(c):
+        v, p = c.as_long(), 1
+        while p < v:
+            p *= 2
+        return bv(p % (1 << w), w)
+    d = over_const_leaves(x, npot)
+    if d is not None:
+        ex.oblige('panic', zand(guard, z3.UGT(x, bv(1 << (w - 1), w))), 'next_power_of_two overflow')
+        return zand(guard, z3.ULE(x, bv(1 << (w - 1), w))), zsimp(d)
     res = bv(1 << (w - 1), w)
     for k in range(w - 2, -1, -1):
         res = zite(z3.ULE(x, bv(1 << k, w)), bv(1 << k, w), res)
@@ -1461,6 +1480,28 @@ def m_iter_mut_find(ex, m, argv, guard, st, callee):
     return guard, option(ex, zsimp(found), PlaceRef(ref.cell, ref.path + (('vecsel', idx),)))
 
 
+def m_result_map_err(ex, m, argv, guard, st, callee):
+    """Result::map_err(f) / Result::map(f): the closure is applied to the payload of the one variant, the other passes."""
+    r, f = argv
+    which = 'Err' if m.group(1) == 'map_err' else 'Ok'
+    other = 'Ok' if which == 'Err' else 'Err'
+    d_which = bv(1 if which == 'Err' else 0, 64)
+    hit = zsimp(r.discr == d_which)
+    rdef = ex.defs.find_enum('Result')
+    if which not in r.variants or z3.is_false(hit):
+        return guard, EnumV(rdef, r.discr, {other: r.variants[other]} if other in r.variants else {})
+    before = st.copy()
+    g2, v = call_closure(ex, f, [r.variants[which][0]], zand(guard, hit), st)
+    if not z3.is_true(hit):
+        from mirsym import merge_states
+        _g, merged = merge_states([(hit, st.copy()), (znot(hit), before)])
+        st.mem, st.dom, st.ckey = merged.mem, merged.dom, merged.ckey
+    vs = {which: (v,)}
+    if other in r.variants:
+        vs[other] = r.variants[other]
+    return zor(zand(guard, znot(hit)), g2), EnumV(rdef, r.discr, vs)
+
+
 def m_option_flatten(ex, m, argv, guard, st, callee):
     o = argv[0]
     none = EnumV(ex.defs.find_enum('Option'), bv(0, 64), {'None': ()})
@@ -1520,6 +1561,43 @@ def m_flat_map_find(ex, m, argv, guard, st, callee):
             res = ite_val(zand(act2, b), EnumV(ex.defs.find_enum('Option'), bv(1, 64), {'Some': (item2,)}), res)
     del st.mem[c1]
     del st.mem[c2]
+    return guard, res
+
+
+def m_filter_map(ex, m, argv, guard, st, callee):
+    fi = argv[0]
+    if not (isinstance(fi, Model) and fi.kind == 'filter_iter'):
+        raise Unsupported("map on %r" % (fi,))
+    return guard, Model('map_filter_iter', fi=fi, fn=argv[1])
+
+
+def m_map_filter_find(ex, m, argv, guard, st, callee):
+    """Map<Filter<slice::Iter, p>, f>::find(q): the image f(x) of the first element x in range with p(x) and q(&f(x));
+    all three closures are pure."""
+    mf = ex.read_ref(st, argv[0]) if isinstance(argv[0], PlaceRef) else argv[0]
+    if not (isinstance(mf, Model) and mf.kind == 'map_filter_iter'):
+        raise Unsupported("find on %r" % (mf,))
+    fi, clm, clq = mf.f['fi'], mf.f['fn'], argv[1]
+    it, clp = fi.f['it'], fi.f['fn']
+    s = it.f['slice']
+    tp, tm, tq = find_closure(ex, clp.tag), find_closure(ex, clm.tag), find_closure(ex, clq.tag)
+    ex.fresh_n += 1
+    cells = [(0, 'closure%d%s' % (ex.fresh_n, x)) for x in 'pmq']
+    for c, v in zip(cells, (clp, clm, clq)):
+        st.mem[c] = v
+    res = EnumV(ex.defs.find_enum('Option'), bv(0, 64), {'None': ()})
+    for j in range(len(s.backing) - 1, -1, -1):
+        elem = s.backing[j]
+        active = zsimp(zand(z3.ULE(s.start + it.f['pos'], bv(j, 64)), z3.ULT(bv(j, 64), s.start + s.length)))
+        if z3.is_false(active) or elem is None:
+            continue
+        item = ValRef(elem) if it.f['by_ref'] else elem
+        _g, b1 = ex.call_function(tp.fn, [PlaceRef(cells[0]), ValRef(item)], zand(guard, active), st.copy())
+        _g, mapped = ex.call_function(tm.fn, [PlaceRef(cells[1]), item], zand(guard, active, b1), st.copy())
+        _g, b2 = ex.call_function(tq.fn, [PlaceRef(cells[2]), ValRef(mapped)], zand(guard, active, b1), st.copy())
+        res = ite_val(zand(active, b1, b2), EnumV(ex.defs.find_enum('Option'), bv(1, 64), {'Some': (mapped,)}), res)
+    for c in cells:
+        del st.mem[c]
     return guard, res
 
 
@@ -1727,6 +1805,9 @@ def register(ex):
     A(r'^<(?:std::slice::)?IterMut<.*> as (?:std::iter::)?Iterator>::next$', m_iter_mut_next, 'slice::IterMut::next (places inside the Vec)')
     A(r'^<(?:std::slice::)?IterMut<.*> as (?:std::iter::)?Iterator>::find::<\{closure@.*$', m_iter_mut_find, 'slice::IterMut::find with a pure predicate (symbolic element place)')
     A(r'^<(?:std::slice::)?IterMut<.*> as (?:std::iter::)?IntoIterator>::into_iter$', m_identity_iter, 'IntoIterator for IterMut (identity)')
+    A(r'^<(?:std::iter::)?Filter<(?:std::slice::)?Iter<.*>, \{closure@.*\}> as (?:std::iter::)?Iterator>::map::<.*$', m_filter_map, 'Filter<slice::Iter, p>::map (lazy)')
+    A(r'^<(?:std::iter::)?Map<(?:std::iter::)?Filter<(?:std::slice::)?Iter<.*>, \{closure@.*\}>, \{closure@.*\}> as (?:std::iter::)?Iterator>::find::<\{closure@.*$', m_map_filter_find, 'Map<Filter<slice::Iter, p>, f>::find with pure closures')
+    A(r'^(?:std::result::)?Result::<.*>::(map_err|map)::<.*$', m_result_map_err, 'Result::map_err / Result::map')
     A(r'^(?:std::option::)?Option::<(?:std::option::)?Option<.*>>::flatten$', m_option_flatten, 'Option<Option<T>>::flatten')
     A(r'^<(?:std::slice::)?Iter<.*> as (?:std::iter::)?Iterator>::skip$', m_iter_skip, 'slice::Iter::skip')
     A(r'^<(?:std::iter::)?Skip<(?:std::slice::)?Iter<.*>> as (?:std::iter::)?Iterator>::flat_map::<.*$', m_iter_flat_map, 'Skip<slice::Iter>::flat_map (lazy)')
